@@ -378,8 +378,8 @@ def run(tier):
             nj = tables.assoc_const(prog, r, DCR, 'NUM_JOIN_CHANNELS')
             res.require(nj is not None and 1 <= nj <= 4 and nj == len(fs), 'C09:%s:num-join-channels' % short_r, 'NUM_JOIN_CHANNELS = %s but init_channels defines %d channels' % (nj, len(fs)), r,
                         'CONST-TABLE(NUM_JOIN_CHANNELS)', instance='%s: NUM_JOIN_CHANNELS = %s = channels defined by init_channels (retry loop draws 2 bits: exit satisfiable)' % (short_r, nj))
-    if n_const < 170:
-        raise CheckError('floor: frequency constants checked %d < 170' % n_const)
+    if n_const < 150:
+        raise CheckError('floor: frequency constants checked %d < 150' % n_const)
     # constructions of Channel from network data must be guarded by the region predicate on the same frequency
     n_ctor = 0
     for suffix in ('Channel::new', 'Channel::new_with_dr'):
